@@ -400,6 +400,33 @@ func judgeLogStructure(c *Ctx, path, lock string, ops []fsOp, wit map[string]int
 		}
 		c.Add("suffix_reads_checked", 1)
 	}
+	// last: an entry written by somebody else's tool, carrying only some of the fields (the board is a plain
+	// file; nothing makes writers use this library). What a reader gets for it may not depend on where the
+	// read started: read together with the entry before it, or alone, it is the same entry.
+	if len(all) > 0 {
+		bare := fmt.Sprintf(`{"id":"bare-%d","event":"bare","data":"YmFyZQ=="}`, len(all))
+		if f, err := os.OpenFile(path, os.O_APPEND|os.O_WRONLY, 0o600); err == nil {
+			_, _ = f.WriteString(bare + "\n")
+			f.Close()
+			h, _ := file_storage.NewFileStorage(path, lock)
+			together, err1 := h.GetMessages(uint64(len(all) - 1))
+			alone, err2 := h.GetMessages(uint64(len(all)))
+			h.Close()
+			c.Eval(1)
+			c.Distinct("bare-entry-behind-a-full-one")
+			if err1 != nil || err2 != nil || len(together) != 2 || len(alone) != 1 {
+				c.Violate("C16/suffix-read-fails", fmt.Sprintf("after a foreign writer appended an entry with few fields: %v %v (%d and %d entries)", err1, err2, len(together), len(alone)), wit)
+			} else {
+				a, b := together[1], alone[0]
+				a.Offset, b.Offset = 0, 0
+				ja, _ := json.Marshal(a)
+				jb, _ := json.Marshal(b)
+				if string(ja) != string(jb) {
+					c.Violate("C16/entry-depends-on-where-the-read-started", fmt.Sprintf("the entry at position %d read together with its predecessor is %s, read alone it is %s", len(all), trunc(string(ja), 200), trunc(string(jb), 200)), wit)
+				}
+			}
+		}
+	}
 }
 
 func checkC16(c *Ctx) {
@@ -500,6 +527,7 @@ func checkC16(c *Ctx) {
 				go func(wi int) {
 					defer wg.Done()
 					cmd := exec.Command(exe, "worker", "fswriter", path, lock, strconv.Itoa(wi), strconv.Itoa(cf.perW), cf.class, strconv.FormatUint(seed, 10))
+					cmd.WaitDelay = 10 * time.Second // a child that has exited never keeps this process waiting on its pipes
 					out, err := cmd.Output()
 					if err != nil {
 						c.Inconclusive("writer process: %v", err)
